@@ -23,7 +23,7 @@ import (
 
 func TestMain(m *testing.M) {
 	stats.Init("C03")
-	stats.Rule("rapid state machine over a REQ socket with 1-3 contexts on 1-3 vt pipes; actions send/reply(kind)/recv/recvAsync/openCtx/closeCtx/dropPipe/addPipe; reply kinds: current, stale, other context, cancelled, duplicate, no request bit, random id, short body. Also: 10 ms retry time with starve/release (all peers back-pressure) and forged replies carrying the next consecutive ids while a Send waits untransmitted. Non-trivial: history delivers >=1 non-current reply while a request is outstanding, or uses >=2 contexts with requests, or overlaps an async Recv with a Send; distinct by the sequence of (action, kind, outcome)")
+	stats.Rule("rapid state machine over a REQ socket with 1-3 contexts on 1-3 vt pipes; actions send/reply(kind)/recv/recvAsync/openCtx/closeCtx/dropPipe/addPipe; reply kinds: current, stale, other context, cancelled, duplicate, no request bit, random id, short body. Also: retry time default | 10 ms | 0 (disabled); 10 ms retry time with starve/release (all peers back-pressure) and forged replies carrying the next consecutive ids while a Send waits untransmitted. Non-trivial: history delivers >=1 non-current reply while a request is outstanding, or uses >=2 contexts with requests, or overlaps an async Recv with a Send; distinct by the sequence of (action, kind, outcome)")
 	stats.Assume("replies are injected with the vt barrier (receiver back in Recv), so 'arrived' is exact; Recv that the model predicts to block is issued with a 40 ms deadline")
 	rc := m.Run()
 	stats.Flush()
@@ -64,6 +64,7 @@ type machine struct {
 	overlap bool
 	multi   map[int]bool
 	retry   time.Duration // 0 = library default (1 minute)
+	noRetry bool          // RETRY-TIME 0: re-transmission disabled (a lost connection cancels; dropPipe is not drawn)
 	starved bool          // all pipes are back-pressuring: re-transmissions pile up in the send queue
 	starves int
 }
@@ -164,10 +165,17 @@ func TestC03(t *testing.T) {
 		}
 		defer m.ep.Forget()
 		_ = sock.SetOption(mangos.OptionSendDeadline, 3*time.Second)
-		if rapid.IntRange(0, 2).Draw(t, "fastRetry") == 0 {
+		switch rapid.IntRange(0, 3).Draw(t, "fastRetry") {
+		case 0:
 			// short retry time: re-transmissions happen during the history (needed for "starve")
 			m.retry = 10 * time.Millisecond
 			if err := sock.SetOption(mangos.OptionRetryTime, m.retry); err != nil {
+				t.Fatalf("harness: %v", err)
+			}
+		case 3:
+			// re-transmission disabled: no request ever has a retry timer
+			m.noRetry = true
+			if err := sock.SetOption(mangos.OptionRetryTime, time.Duration(0)); err != nil {
 				t.Fatalf("harness: %v", err)
 			}
 		}
@@ -543,8 +551,8 @@ func TestC03(t *testing.T) {
 				m.canon += "C"
 			},
 			"dropPipe": func(t *rapid.T) {
-				if len(m.pipes) < 2 {
-					t.Skip("keep one pipe")
+				if len(m.pipes) < 2 || m.noRetry {
+					t.Skip("keep one pipe; without retries a lost connection cancels requests (C04's subject)")
 				}
 				m.release()
 				pi := rapid.IntRange(0, len(m.pipes)-1).Draw(t, "pipe")
@@ -611,6 +619,9 @@ func TestC03(t *testing.T) {
 		}
 		if m.overlap {
 			stats.Class("async_recv_overlapped_by_send")
+		}
+		if m.noRetry {
+			stats.Class("retry_disabled")
 		}
 		if m.starves > 0 {
 			stats.Class("starved_retransmission")
